@@ -106,7 +106,22 @@ func builtinNumberToExponential(call FunctionCall) Value {
 	if value == 0 {
 		value = 0 // -0 is formatted like +0
 	}
-	return stringValue(strconv.FormatFloat(value, 'e', int(precision), 64))
+	result := strconv.FormatFloat(value, 'e', int(precision), 64)
+	if precision >= 0 {
+		// strconv rounds a value exactly half way between two candidates to even, ES5 15.7.4.6
+		// step 9a takes the larger one. When strconv went down the last digit is even: add one.
+		e := strings.IndexByte(result, 'e')
+		exponent, _ := strconv.Atoi(result[e+1:])
+		printed, _ := new(big.Rat).SetString(result)
+		half, _ := new(big.Rat).SetString("5e" + strconv.Itoa(exponent-int(precision)-1))
+		missing := new(big.Rat).Sub(new(big.Rat).SetFloat64(math.Abs(value)), printed.Abs(printed))
+		if missing.Cmp(half) == 0 {
+			digits := []byte(result)
+			digits[e-1]++
+			result = string(digits)
+		}
+	}
+	return stringValue(result)
 }
 
 func builtinNumberToPrecision(call FunctionCall) Value {
